@@ -195,6 +195,7 @@ Definition with_yaml_view (check : config -> request -> list N -> list N) (ts : 
                        g_addresses := g_addresses g; g_policies := map yaml_view (g_policies g) |} in
           match check g' req impl with
           | [0; _] => v_known 2
+          | [3; _] => v_known 2          (* the YAML view is itself in a known class (F20): still only known findings *)
           | _ => v
           end
         else v
